@@ -1065,8 +1065,9 @@ class C01(PropBase):
     trusted_base = [
         "Coq 8.16.1 kernel; vm_compute only in witnesses (c01_*_refuted) and non-vacuity examples",
         "hand-written model C01/Model.v of minidump.rs's list/string/directory/handle/exception machinery and of scroll 0.12's Pread bounds rule; "
-        "tied to the code by the correspondence run (40 fields per case + the largest ledger entry as a lower bound of the measured peak request); its record sizes, field offsets / widths, array lengths and the CONTEXT_* table are proved equal to Gen/Layouts.v (translate/format_layouts.py, regenerated from format.rs): c01_layout_pinned",
+        "tied to the code by the correspondence run (41 fields per case + the largest ledger entry as a lower bound of the measured peak request); its record sizes, field offsets / widths, array lengths and the CONTEXT_* table are proved equal to Gen/Layouts.v (translate/format_layouts.py, regenerated from format.rs): c01_layout_pinned",
         "C08's hand-written model of into_rangemap_safe / range-map (RM.C08.Model, validated against the code by C08's own check) under the lookup theorems of C01/LModel.v",
+        "translate/c01_cpu.py (regex over Cpu::from_processor_architecture, Cpu::pointer_width, PointerWidth::size_in_bytes and the stack-word loop of MinidumpThread::print; aborts on any other shape); which CONTEXT_* array a *RegisterNumbers enum indexes is the reviewed table of C01/ConstIndex.v",
         "translate/c01_sites.py (regex/brace-level scan of the Rust source, not a Rust parser): finds the trap/loop/allocation/guard sites by their surface syntax; "
         "a panic hidden behind a method call it does not know (a new helper crate, an operator trait) is not a site; the classification of coq/C01/Sites.v "
         "(Covered/Safe/Searched) is a reviewed table, per function and kind, not a line-by-line refinement proof",
@@ -1091,7 +1092,7 @@ class C01(PropBase):
                 "(c01_*_unfixed_refuted: F-C01a..d). The rest of the property lives in the runtime and is searched, not proved: a harness with a counting "
                 "global allocator and a watchdog opens each case, requests all 24 stream types, runs every accessor and print routine, and an oracle "
                 "requires no panic, termination and a largest single allocation <= max(64 KiB, 16*len); the extracted model must agree with the real "
-                "reader on 40 observables per case. Round 4: the queries on a parsed dump are modelled and proved for both profiles (memory_range of regions / memory info / "
+                "reader on 41 observables per case. Round 4: the queries on a parsed dump are modelled and proved for both profiles (memory_range of regions / memory info / "
                 "modules: c01_memory_range_sound; MinidumpThread::last_error address arithmetic: c01_last_error_in_bounds; get_crash_address: c01_crash_address_total; "
                 "ELF debug id padding: c01_elf_debug_id_reads; the four compared query fields: c01_crash_queries_total). A source scan lists every index / unwrap / "
                 "panic macro / unchecked arithmetic / division / integer cast / allocation / copy / unsafe / loop / inequality / guard site of minidump/src and "
@@ -1103,10 +1104,17 @@ class C01(PropBase):
                 "index a lookup returns is a position of the list whose own range contains the address (c01_address_lookup_total, c01_unloaded_lookup_in_range, c01_get_thread_index_total, "
                 "c01_lookups_total and c01_stack_source_total for every byte string). The layout constants of the models (35 record sizes, 75 field offsets/widths, 5 array lengths, the CONTEXT_* table) are proved equal to "
                 "the layouts regenerated from format.rs (c01_layout_pinned), and every index site with an integer-literal index found by the scan (394 sites) is proved below the length of its "
-                "array as the generated layouts give it (c01_const_indices_in_bounds).",
+                "array as the generated layouts give it (c01_const_indices_in_bounds). "
+                "Second pass of round 5: the stack words MinidumpThread::print writes are inside the model (Cpu::from_processor_architecture, Cpu::pointer_width, PointerWidth::size_in_bytes, the chunks_exact / "
+                "try_into().unwrap() / offset += chunk loop with a word counter, over the stack the thread owns or finds through get_memory; compared field TSW = words and bytes per word of the first eight threads, read off the real print output): "
+                "for EVERY processor_architecture value (or no system info) and any stack length the loop neither traps nor runs out of fuel, writes len / chunk words of 4 or 8 bytes, and the chunk has the length of the array it must fill "
+                "(c01_thread_print_words_total; c01_thread_stack_words_total for every byte string); the CPU / pointer-width / word-size tables and the array length of each arm of the loop are regenerated from system_info.rs and minidump.rs "
+                "by translate/c01_cpu.py and proved equal to the model's, with chunk = array stated on the generated tables alone (c01_cpu_tables_pinned). Indices that are discriminants of the *RegisterNumbers enums of format.rs "
+                "(`iregs[md::MipsRegisterNumbers::StackPointer as usize]`, `iregs[*reg as usize]` over a const list) and literal range bounds count as constant indices (444 sites), and a group rests on c01_const_indices_in_bounds only if all its index sites are constant. "
+                "The lookup table behind the stack fallback has a ledger entry (into_rangemap_safe's with_capacity, 24-byte entries): at most 1.5 x the file (c01_lookup_table_alloc_backed). Time limits of the run are CPU-time limits.",
         "note": "Trusted: Coq kernel; hand-written model (correspondence-checked on every run, not verified against the Rust source); scroll's Pread "
                 "bounds rule as read from its source; extraction + OCaml/Rust glue; the counting allocator. Not covered by theorem: the groups classified "
-                "Searched in C01/Sites.v (CrashReason tables and Display, most printer bodies, context register access by variable index, system-info formatting, procfs maps), "
+                "Searched in C01/Sites.v (106 of 440 groups: CrashReason tables and Display, most printer bodies, the `unreachable!` arms of get_register_always for unknown register names, system-info formatting, procfs maps), "
                 "encoding_rs/time. C08's range-map model is reused, not re-verified here. The site scan is syntactic (regex over blanked source), its classification a reviewed table. No axioms.",
     }
 
@@ -1253,7 +1261,8 @@ class C01(PropBase):
         # round 5: how much the lookup fields had to say (debug profile): cases with a table of >= 2 entries, lookups that found an element / none,
         # stacks by source, unified list kinds
         try:
-            st = {"tables_ge2": 0, "found": 0, "not_found": 0, "ts_own": 0, "ts_fallback": 0, "ts_none": 0, "kind_memory64": 0, "kind_memory_list": 0, "tg_later_index": 0}
+            st = {"tables_ge2": 0, "found": 0, "not_found": 0, "ts_own": 0, "ts_fallback": 0, "ts_none": 0, "kind_memory64": 0, "kind_memory_list": 0, "tg_later_index": 0,
+                  "tsw_threads_4_byte_words": 0, "tsw_threads_8_byte_words": 0, "tsw_threads_no_stack": 0, "tsw_threads_stack_below_one_word": 0, "tsw_words": 0}
             for c, a in zip(ctx["cases"], ctx["impl"].get("debug", [])):
                 if a is None or c == "SIZES" or a.startswith("P;;"):
                     continue
@@ -1273,6 +1282,16 @@ class C01(PropBase):
                     st["ts_own"] += xs[1:].count("-2")
                     st["ts_none"] += xs[1:].count("-1")
                     st["ts_fallback"] += sum(1 for x in xs[1:] if not x.startswith("-"))
+                v = f.get("TSW", "")
+                if v.startswith("ok:"):
+                    for x in v.split(":")[1:]:
+                        if x == "-1":
+                            st["tsw_threads_no_stack"] += 1
+                        elif x == "0":
+                            st["tsw_threads_stack_below_one_word"] += 1
+                        elif x.isdigit():
+                            st["tsw_threads_%d_byte_words" % (int(x) % 16)] = st.get("tsw_threads_%d_byte_words" % (int(x) % 16), 0) + 1
+                            st["tsw_words"] += int(x) // 16
                 v = f.get("TG", "")
                 if v.startswith("ok:"):
                     st["tg_later_index"] += sum(1 for i, x in enumerate(v.split(":")[1:]) if x.isdigit() and int(x) > i)
